@@ -528,6 +528,11 @@ class VTerm:
                 self.pending = None
                 self._kitty_done(k0, "".join(parts))
             return
+        if self.pending is not None:
+            # any other graphics command before the last chunk of a transmission: the
+            # protocol requires all chunks of an image to be sent first; the image is lost
+            self.aborted.append("kitty chunked %s interrupted by a=%s" % (str(self.pending[0])[:40], action))
+            self.pending = None
         if action == "d":
             self._mark()
             d = keys.get("d", "a")
@@ -553,10 +558,6 @@ class VTerm:
         if action == "q":
             self.queries.append("KITTY " + keys.get("i", ""))
             return
-        if self.pending is not None:
-            # a new command while a chunked one is unfinished: the old one is lost
-            self.aborted.append("kitty chunked " + str(self.pending[0]))
-            self.pending = None
         if keys.get("m") == "1":
             self.pending = [keys, [payload], []]
             return
